@@ -11,6 +11,7 @@ func init() {
 		Assumptions: []string{"the constructors interpret (letters, pairing s, pairing c, gap, caseSensitive) positionally as their parameter names say"},
 		Run: func(c *Ctx) {
 			c.guard("tables/alphabet", func() { ruleAlphabets(c) })
+			c.guard("casefold", func() { ruleCaseFold(c, "casefold"); c.floor("casefold", 2) })
 		},
 	})
 	register(&propDef{
@@ -188,6 +189,7 @@ func init() {
 				c.floor("livguard", 4)
 			})
 			c.guard("maskguard", func() { ruleMaskGuard(c, "maskguard"); c.floor("maskguard", 2) })
+			c.guard("watermark", func() { ruleWatermark(c, "watermark", c.fn("index/kmerindex", "(*Index).ForEachKmerOf")); c.floor("watermark", 2) })
 		},
 	})
 	register(&propDef{
@@ -197,6 +199,9 @@ func init() {
 		Assumptions: []string{"the API protocol: Push* Finalise Pull* Clear per cycle"},
 		Run: func(c *Ctx) {
 			c.guard("reset", func() { ruleReset(c, "reset"); c.floor("reset", 6) })
+			// whether a cycle is in-memory or spilled must not be decided from state the
+			// background writers are still producing: Finalise joins before reading it
+			c.guard("gojoin", func() { ruleMorassJoin(c, "gojoin"); c.floor("gojoin", 1) })
 		},
 	})
 	register(&propDef{
@@ -239,6 +244,7 @@ func init() {
 		Assumptions: []string{"append reuses spare capacity of its first argument"},
 		Run: func(c *Ctx) {
 			c.guard("appendalias", func() { ruleAppendAlias(c, "appendalias", "feat/gene"); c.floor("appendalias", 1) })
+			c.guard("orientwalk", func() { ruleOrientWalk(c, "orientwalk", "BaseOrientationOf", "OrientationWithin"); c.floor("orientwalk", 2) })
 			c.guard("fresh/sortedfresh", func() { ruleSortedFresh(c, "fresh/sortedfresh", "feat/gene", "Exons.Add"); c.floor("fresh/sortedfresh", 2) })
 			c.guard("commitlast", func() {
 				ruleCommitLast(c, "commitlast", "feat/gene", "(*NonCodingTranscript).SetExons")
@@ -256,6 +262,8 @@ func init() {
 		Run: func(c *Ctx) {
 			c.guard("tables/ukkonen", func() { ruleUkkonen(c, "tables/ukkonen"); c.floor("tables/ukkonen", 2) })
 			c.guard("emitguard", func() { ruleFilterEmit(c, "emitguard"); c.floor("emitguard", 6) })
+			c.guard("gridperiod", func() { ruleGridPeriod(c, "gridperiod"); c.floor("gridperiod", 1) })
+			c.guard("runstate", func() { ruleRunState(c, "runstate"); c.floor("runstate", 1) })
 		},
 	})
 	register(&propDef{
@@ -265,6 +273,7 @@ func init() {
 		Assumptions: []string{"the kernel's Hit fields Abpos/Aepos/Bbpos/Bepos are the hit's begin/end positions on the two sequences"},
 		Run: func(c *Ctx) {
 			c.guard("emitguard", func() { ruleDPEmit(c, "emitguard"); c.floor("emitguard", 6) })
+			c.guard("runstate", func() { ruleRunState(c, "runstate"); c.floor("runstate", 1) })
 		},
 	})
 }
